@@ -357,6 +357,10 @@ class Model:
             for p, n in self.iter_ns(ns):
                 if n.kind == 'file' and n.blob == old:
                     n.blob = new
+        if self.eltorito:
+            for e in self.eltorito['entries']:
+                if e['blob'] == old:
+                    e['blob'] = new          # the entry boots whatever the file now holds
         self._gc()
 
     def op_dup_pvd(self, op):
